@@ -962,6 +962,7 @@ def make_iter(eng, v):
                                               z3.And(z3.Select(e, sq.at(s, i)), pos(sq.at(s, i)) == i))))
         it = IterV(sq.len(s), lambda i: wrap(ty.t, sq.at(s, _int(i))))
         it.src = v
+        it.pos, it.pos_ty = pos, ty.t
         return it
     if ty == TStr:
         return IterV(z3.Length(e), lambda i: SV(TStr, z3.SubString(e, _int(i), 1)))
@@ -1932,6 +1933,17 @@ def comprehension(eng, node, env, kind):
             return elem(sub)
         finally:
             eng.spec -= 1
+    if kind == 'list' and not eng.spec and _may_raise(node.elt):
+        # a list comprehension evaluates every element: an exception in the element at some position is an exception of the
+        # comprehension.  The element is evaluated once, as code, at an arbitrary position (the later, lazy evaluations of
+        # elements are pure)
+        n_ = it.n if not isinstance(it.n, int) else z3.IntVal(it.n)
+        if eng.branch(n_ > 0):
+            k_ = z3.FreshInt('ce')
+            eng.assume(z3.And(0 <= k_, k_ < n_))
+            sub = Env(env, {})
+            eng.assign(g.target, it.get(k_), sub)
+            elem(sub)
     res = IterV(it.n, get)
     if hasattr(it, 'tag'):
         res.tag = it.tag                 # what a contract attached to the traversed abstract collection
@@ -1940,6 +1952,12 @@ def comprehension(eng, node, env, kind):
     if kind == 'list':
         return iter_to_list(eng, res)
     return res
+
+def _may_raise(expr):
+    """can evaluating this expression raise?  (a subscript, a call, an attribute access, arithmetic)"""
+    import ast
+    return any(isinstance(x, (ast.Subscript, ast.Call, ast.Attribute, ast.BinOp, ast.UnaryOp)) for x in ast.walk(expr))
+
 
 def dict_from_pairs(eng, it, g, env, elem):
     """{k(x): v(x) for x in S} over a symbolic S: a fresh map of which only true facts are stated (an under-specification:
